@@ -392,8 +392,8 @@ class QualitativeDiscretizer(BaseDiscretizer):
             dropna=False,
             copy=True,
             verbose=self.verbose,
-            str_nan="__NAN__",
-            str_default="__OTHER__",
+            str_nan=self.str_nan,
+            str_default=self.str_default,
             n_jobs=self.n_jobs,
         )
         x_copy = base_discretizer.fit_transform(x_copy, y)
